@@ -45,6 +45,48 @@ def check_deep(case, acc):
     acc.tag("deep_tree_cases")
 
 
+def check_deep_bushy(case, acc):
+    """The two depth-first iterators on a tree that is deeper than the interpreter's recursion limit AND bushy (every spine
+    node has a leaf as first child): running into RecursionError is a legitimate way out, but whatever was handed out until
+    then is a duplicate-free prefix of the defined order - and an iteration that ends normally is complete."""
+    make = nodes.factory(case["cls"])
+    depth = int(case["factor"] * sys.getrecursionlimit())
+    spine = [make(0)]
+    for i in range(1, depth):
+        make(100000 + i).parent = spine[-1]
+        node = make(i)
+        node.parent = spine[-1]
+        spine.append(node)
+    pre, stack = [], [spine[0]]
+    while stack:
+        cur = stack.pop()
+        pre.append(cur)
+        stack.extend(reversed(cur.children))
+    post, stack = [], [(spine[0], False)]
+    while stack:
+        cur, done = stack.pop()
+        if done:
+            post.append(cur)
+        else:
+            stack.append((cur, True))
+            stack.extend((c, False) for c in reversed(cur.children))
+    for cls, want in ((PreOrderIter, pre), (PostOrderIter, post)):
+        got, ended = [], "normally"
+        try:
+            for node in cls(spine[0]):
+                got.append(node)
+        except RecursionError:
+            ended = "in RecursionError"
+            acc.tag("deep_bushy_iterations_ended_in_RecursionError")
+        if len(got) > len(want) or any(a is not b for a, b in zip(got, want)):
+            first = next((i for i, (a, b) in enumerate(zip(got, want)) if a is not b), len(want))
+            raise Violation(cls.__name__.lower().replace("iter", ""), "%s on a bushy tree of %d levels (%.1f x the recursion limit) ended %s after %d items; item %d is not the %dth node of the defined order (%d nodes)" % (cls.__name__, depth, case["factor"], ended, len(got), first, first, len(want)))
+        if ended == "normally" and len(got) != len(want):
+            raise Violation(cls.__name__.lower().replace("iter", ""), "%s on a bushy tree of %d levels ended normally after %d of %d nodes" % (cls.__name__, depth, len(got), len(want)))
+    acc.nontrivial(True)
+    acc.tag("deep_bushy_cases")
+
+
 def check_very_deep(case, acc):
     """The three breadth-first iterators on a tree deeper than the interpreter's recursion limit (they are loops, not
     recursions, in the library; the depth-first ones are recursive there and are left out)."""
@@ -109,6 +151,8 @@ def check_case(case, acc):
         from .c15 import check_optimised
 
         return check_optimised(case, acc)
+    if case.get("kind") == "deep-bushy":
+        return check_deep_bushy(case, acc)
     if case.get("kind") == "very-deep":
         return check_very_deep(case, acc)
     if case.get("kind") == "deep":
@@ -292,6 +336,7 @@ def plan(tier, seed):
     examples = 300 if tier == "quick" else 5000
     tasks = [{"engine": "enum", "max_nodes": max_nodes, "index": i, "count": nshards} for i in range(nshards)]
     tasks += [{"engine": "hyp", "examples": examples, "seed": seed * 1000 + i} for i in range(nshards)]
+    tasks += [{"engine": "deep-bushy", "factor": f, "cls": c} for f in ((1.3,) if tier == "quick" else (0.7, 1.3, 2.5)) for c in ("Node", "SlotLM")]
     tasks += [{"engine": "deep", "depth": d, "cls": c} for d in ((270, int(0.6 * sys.getrecursionlimit())) if tier == "quick" else (130, 270, 400, int(0.6 * sys.getrecursionlimit()), int(0.75 * sys.getrecursionlimit()))) for c in ("Node", "SlotLM")]
     tasks += [{"engine": "very-deep", "cls": c} for c in ("Node", "SlotLM")]
     tasks += [{"engine": "raised-limit", "cls": c} for c in ("Node", "SlotLM")]
@@ -310,6 +355,12 @@ def run_task(task, acc):
         return
     if task["engine"] in ("very-deep", "raised-limit"):
         case = {"kind": task["engine"], "cls": task["cls"]}
+        exc = acc.evaluate(check_case, case, enumerated=False)
+        if exc is not None:
+            acc.add_violation(case, exc)
+        return
+    if task["engine"] == "deep-bushy":
+        case = {"kind": "deep-bushy", "factor": task["factor"], "cls": task["cls"]}
         exc = acc.evaluate(check_case, case, enumerated=False)
         if exc is not None:
             acc.add_violation(case, exc)
